@@ -2,7 +2,7 @@
   C09 — local-Clifford equivalence of graph states is decided correctly, constructively.
 
   Property theorems only (helper lemmas live in Proofs/GraphOps.lean, Proofs/LC.lean, Proofs/LCSeq{Step,Loop,Term}.lean and
-  Proofs/LC{Comp,Block,Repair}.lean).
+  Proofs/LC{Comp,Block,Repair,Assemble}.lean, Proofs/LCTotal{Ech,Cols,Inv,Basis,R}.lean, Proofs/LCTotal.lean).
 
   What is proved here for every size n and every input (Tier A of DESIGN §4):
     1. local complementation toggles exactly the pairs of distinct neighbours and is an involution; both implementations
@@ -36,6 +36,11 @@
        the decision statement holds in deterministic mode relative to exactly one hypothesis, the completeness of the pair-sum
        shortcut on *connected* graphs (`decides_lc_equivalence_repaired_partial`,
        `shortcut_complete_on_connected_statement` — a claim of the paper, tested exhaustively for connected n ≤ 6, not proved).
+    9. Totality (section 6; Proofs/LCTotal*.lean): the whole-graph algorithm and the repaired function *return* on every input
+       of the quantifier (same size n ≥ 1, deterministic or random mode, every draw) — none of the three internal assertions
+       can fire, the reshape and the exact inverses succeed (`is_lc_equivalent_component_total`, `is_lc_equivalent_total`);
+       the decision theorems are restated without the hypothesis "the function returned"
+       (`is_lc_equivalent_returns_and_is_right_off_the_shortcut`, `is_lc_equivalent_decides_partial`).
   `isLcEquivalent` is the model of `is_lc_equivalent` while the repository is unrepaired and of `_is_lc_equivalent_component`
   afterwards; sections 2–4 are about it in both readings.
 -/
